@@ -4,7 +4,7 @@
    validation of harness/c10.py compares the real objects against. The refinement
    "the Python objects and global generators behave like this pure model" is runtime
    state: it is validated by traces, not proved (level: other). *)
-From CNV Require Import Base.Prelude Model.World Proofs.World.
+From CNV Require Import Base.Prelude Model.World Proofs.World Model.Decimal Gen.FnCore Proofs.FnCore.
 
 (* ensure_path always terminates within its fuel (pigeonhole on the finite directory). *)
 Theorem C10_ensure_path_total : forall (f : @fs string), exists f', ensure_path f = Some f'.
@@ -51,3 +51,26 @@ Theorem C10_args_frame :
   forall (Obj : Type) (seed : Z) (d : Obj) (h : list (op * list nat * Z * Z)) (w : world),
   w_objs (fst (run seed d w h)) = w_objs w.
 Proof. exact (@run_objs). Qed.
+
+(* ---- source tie of ensure_path's backup-name search (Gen/FnCore.v, regenerated from cnvlib/core.py on every
+   run): the first candidate is fname.1, one iteration of the while loop moves from fname.n to fname.(n+1) *)
+Theorem C10_source_backup_first : forall fname, fn_backup_first fname = (1%Z, backup_name fname 1).
+Proof. exact source_backup_first. Qed.
+
+Theorem C10_source_backup_step : forall fname n,
+  fn_backup_step fname (Z.of_nat n) (backup_name fname n) = (Z.of_nat (S n), backup_name fname (S n)).
+Proof. exact source_backup_step. Qed.
+
+(* different indices are different file names: indexing the family by the number loses nothing *)
+Theorem C10_source_backup_names_distinct : forall fname n m,
+  backup_name fname n = backup_name fname m -> n = m.
+Proof. exact backup_name_inj. Qed.
+
+(* the code's search (the generated step iterated while the candidate exists) IS the model's first_free, on
+   the file system whose files of the family are exactly those bound in f *)
+Theorem C10_source_backup_search : forall fname (f : @fs string) fuel n,
+  search fname (fun nm => existsb (fun k => String.eqb nm (backup_name fname k)
+                                            && match lookup k f with Some _ => true | None => false end)
+                                  (map fst f)) fuel (Z.of_nat n) (backup_name fname n)
+  = option_map (fun k => (Z.of_nat k, backup_name fname k)) (first_free fuel n f).
+Proof. exact source_search. Qed.
